@@ -126,7 +126,7 @@ func runOne(t *testing.T, sc *Scenario, tape *simrt.Tape, tier string, wantTrace
 	if res.Livelock {
 		vs = append(vs, simrt.Violation{Rule: "livelock", Msg: fmt.Sprintf("%d scheduler steps without the clock moving; tasks: %s", s.LivelockSteps, strings.Join(res.Blocked, "; "))})
 	}
-	if oracle != nil && out.Inconclusive == "" {
+	if oracle != nil && out.Inconclusive == "" && !res.Aborted {
 		vs = append(vs, oracle(res)...)
 	}
 	out.Violations = dedupe(vs)
